@@ -202,6 +202,11 @@ func (f *Fetcher) processNotification(notification announcesBatch, fetchTimer *t
 	if first && len(f.fetching) != 0 {
 		f.rescheduleFetch(fetchTimer)
 	}
+	if first && len(f.fetching) == 0 && noFetching {
+		// announced while suspended and nothing else is in flight: arm the timer,
+		// otherwise nothing would ever pick these items up
+		f.rescheduleFetch(fetchTimer)
+	}
 }
 
 // Loop is the main fetcher loop, checking and processing various notifications
